@@ -71,10 +71,10 @@ PROPS = {
     "C03": dict(probes=["v3"], functions=CANON + SERIAL + PARSER, lean=["layout", "parser", "canonicalize", "finallabels"], diff=["pipeline", "parser"], bounded=[("pipeline", "c03")]),
     "C04": dict(probes=["v3"], functions=CANON, lean=["canonicalize"], diff=["pipeline"], bounded=[("pipeline", "c04")]),
     "C05": dict(functions=SERIAL, lean=["layout", "serialize"], diff=["pipeline"], bounded=[("c05", None)]),
-    "C06": dict(functions=CANON + SERIAL + V3000 + V2000, lean=["v3000", "v2000"], diff=["pipeline", "io"], bounded=[("c06", None)]),
-    "C07": dict(functions=V3000, lean=["v30line", "v3000"], diff=["io"], bounded=[("c07", None)]),
-    "C08": dict(functions=V2000 + V3000, lean=["v2000"], diff=["io"], bounded=[("c08", None)]),
-    "C09": dict(probes=["v5"], functions=WRITER + V3000, lean=["v30line"], diff=["io"], bounded=[("c09", None)]),
+    "C06": dict(functions=CANON + SERIAL + V3000 + V2000, lean=["reader", "v3000", "v2000"], diff=["pipeline", "io"], bounded=[("c06", None)]),
+    "C07": dict(functions=V3000, lean=["reader", "v30line", "v3000"], diff=["io"], bounded=[("c07", None)]),
+    "C08": dict(functions=V2000 + V3000, lean=["v2000", "reader"], diff=["io"], bounded=[("c08", None)]),
+    "C09": dict(probes=["v5"], functions=WRITER + V3000, lean=["writer", "v30line"], diff=["io"], bounded=[("c09", None)]),
     "C10": dict(functions=PARSER, lean=["parser"], diff=["parser"], bounded=[("c10", None)]),
     "C11": dict(probes=["v3"], functions=PARSER + CANON + SERIAL, lean=["parser", "canonicalize", "layout", "finallabels"], diff=["parser", "pipeline"], bounded=[("c11", None)]),
     "C12": dict(functions=CANON + SERIAL, lean=["canonicalize", "relabel", "finallabels"], diff=["pipeline"], bounded=[("pipeline", "c12")]),
